@@ -518,7 +518,13 @@ pub fn main(args: &[String]) {
                     _ => "0".to_string(),
                 };
                 let sep = if r.gen_bool(0.5) { "; " } else { "\n" };
-                emit(format!("{}{sep}{body}", defs.join(sep)), "deforder");
+                match r.gen_range(0..10) {
+                    // the same group as a LOCAL group: in the body of a let-bound function, of an anonymous function, in a definition
+                    0 | 1 => emit(format!("h = (n : int) => ({}; {body} + n)\nh {}", defs.join("; "), r.gen_range(0..3)), "deforder"),
+                    2 => emit(format!("((n : int) => ({}; {body} + n)) {}", defs.join("; "), r.gen_range(0..3)), "deforder"),
+                    3 => emit(format!("c : int = ({}; {body})\nc + 1", defs.join("; ")), "deforder"),
+                    _ => emit(format!("{}{sep}{body}", defs.join(sep)), "deforder"),
+                }
             }
         }
         "typed" => {
